@@ -116,6 +116,39 @@ def run(fx, rep):
             rep.check(p in paths, 'R1', 'evaluator-evaluates/%s' % p, s['loc'], 'an expression field (covered by the collector: %s)' % (p in visited),
                       'evaluator evaluates %s which is not an expression field by the type definitions (fail closed)' % p)
     # list elements are evaluated in a closure
+    # ---------------- R6 accessors of the report
+    rep.rule('R6', 'the report hands out what was collected: variables and functions are not crossed, dropped or filtered between the collector and the accessors')
+    ER = 'cel_parser::references::ExpressionReferences'
+    for meth, field, reader in (('has_variable', 'variables', 'std::collections::HashSet::contains'), ('has_function', 'functions', 'std::collections::HashSet::contains'),
+                                ('variables', 'variables', 'std::collections::HashSet::iter'), ('functions', 'functions', 'std::collections::HashSet::iter')):
+        bs = [x for x in fx.bodies.values() if re.sub(r"::<'_>", '', F.norm_path(x.path)) == ER + '::' + meth]
+        if len(bs) != 1:
+            raise F.Lost('ExpressionReferences::%s not found' % meth)
+        ab = bs[0]
+        rep.analysed(ab)
+        apv = F.Prov(ab)
+        reads = [sorted(F.term_str(x) for x in apv.of_operand(t['args'][0])) for bi, t in ab.calls() if F.norm_callee(t) == reader]
+        filt = sorted({F.norm_callee(t) for bi, t in ab.calls() if re.search(r'::(filter|filter_map|skip|skip_while|take|take_while|step_by|retain)$', F.norm_callee(t) or '')})
+        rep.check(reads == [['arg1.%s' % field]] and not filt, 'R6', 'accessor/%s' % meth, ab.loc(), '%s reads self.%s' % (meth, field),
+                  '%s reads %s%s, expected self.%s unfiltered' % (meth, reads, (' filtered by %s' % filt) if filt else '', field))
+    rb = [x for x in fx.bodies.values() if x.crate == 'cel_parser' and x.path.endswith('::references') and 'IdedExpr' in x.path and not x.path.endswith('_references')]
+    if len(rb) != 1:
+        raise F.Lost('IdedExpr::references not found')
+    rb = rb[0]
+    rpv = F.Prov(rb, transparent={})
+    r6calls = [(bi, t) for bi, t in rb.calls() if (F.norm_callee(t) or '').endswith('::_references')]
+    r6agg = [st for _, _, st in rb.stmts() if st['k'] == 'Assign' and st['rv']['k'] == 'Aggregate' and (st['rv'].get('adt') or '').endswith('ExpressionReferences')]
+    okk = len(r6calls) == 1 and len(r6agg) == 1
+    if okk:
+        def ident(o):
+            return {x[3] for x in rpv.of_operand(o) if x[0] == 'call'}
+        t = r6calls[0][1]
+        fields = dict(zip(r6agg[0]['rv']['fields'], r6agg[0]['rv']['ops']))
+        v_in, f_in = ident(t['args'][1]), ident(t['args'][2])
+        okk = bool(v_in) and bool(f_in) and v_in != f_in and ident(fields['variables']) == v_in and ident(fields['functions']) == f_in and \
+            all(x == ('param', 1) for x in rpv.of_operand(t['args'][0]))
+    rep.check(okk, 'R6', 'references/sets-handed-over', rb.loc(), 'the set filled as `variables` becomes .variables, likewise functions; the collector starts at self',
+              'references() does not hand the two collected sets to the fields of the same name (or does not start at the whole expression)')
     rep.floor('R1', 30)
     # ---------------- R2 sources
     srcs = []
